@@ -11,6 +11,9 @@ Line protocol for C10.
   rt  <tail> fr <n> (<idhex> <ty> <len> <seed>)*n ch <k> <size>*k
       obs:  acc <n> (0|1)*n fr <m> (<idhex> <ty> <datahex>)*m stop <kind> left <n> alloc <a>
 
+  fw  me <hex> up <len> <seed> down <len> <seed> cs <k> <size>*k
+      obs:  up <hex> down <hex> done <0|1>
+
 Payloads are `(len, seed)` pairs expanded by `genBytes` (same function in the Go harness).
 -/
 namespace Tunnox.Drv.C10
@@ -215,8 +218,39 @@ def parseAcc : List String → Option (List Bool × List String)
     if xs.all (fun x => x == "0" || x == "1") then pure (xs.map (· == "1"), rest) else none
   | _ => none
 
+structure FwCase where
+  me : Bytes
+  up : Bytes
+  down : Bytes
+  cs : List Nat
+
+def parseFw : List String → Option FwCase
+  | "me" :: me :: "up" :: ul :: us :: "down" :: dl :: ds :: ts => do
+    let me ← bytesOfHex me
+    let ul ← ul.toNat?
+    let us ← us.toNat?
+    let dl ← dl.toNat?
+    let ds ← ds.toNat?
+    let (cs, _) ← parseSizes "cs" ts
+    pure ⟨me, genBytes ul us, genBytes dl ds, cs⟩
+  | _ => none
+
+def fwObsStr (o : FwObs) : String :=
+  s!"up {hexOfBytes o.up} down {hexOfBytes o.down} done {if o.done then 1 else 0}"
+
+def parseFwObs : List String → Option FwObs
+  | ["up", u, "down", d, "done", x] => do
+    let u ← bytesOfHex u
+    let d ← bytesOfHex d
+    if x == "0" || x == "1" then pure ⟨u, d, x == "1"⟩ else none
+  | _ => none
+
 def runModel (ts : List String) : String :=
   match ts with
+  | "fw" :: rest =>
+    match parseFw rest with
+    | some c => fwObsStr (runForward c.me (chunkBy c.cs c.up) c.down)
+    | none => "bad-case"
   | "st" :: rest =>
     match parseSt rest with
     | some c => stObsStr (modelSt c)
@@ -234,6 +268,11 @@ def runModel (ts : List String) : String :=
 /-- The theorem's predicate on an observation; anything unparsable (panic, timeout, …) is `false`. -/
 def runHolds (caseToks obsToks : List String) : String :=
   match caseToks with
+  | "fw" :: rest =>
+    match parseFw rest, parseFwObs obsToks with
+    | some c, some o => boolStr (holdsFw c.up c.down o)
+    | some _, none => "false"
+    | none, _ => "bad-case"
   | "st" :: rest =>
     match parseSt rest, parseStObs obsToks with
     | some c, some o => boolStr (holdsStream c.me c.evs c.tail c.reads o)
